@@ -8,7 +8,10 @@ Property theorems over the model `HcipyVerif.Serial` (see `Model/Serial.lean` fo
 modelled).  Hypotheses used throughout:
 
 * `knownSystem g.system` — the grid's class is registered in `Grid._coordinate_systems`
-  (`CartesianGrid`, `PolarGrid`); the abstract base `Grid` is not (`base_grid_not_readable`);
+  (`CartesianGrid`, `PolarGrid` and, after the repair of D161, the base `Grid`).  This is **not** an
+  invariant of writable objects: `grid_file_readable_iff` states, at top level, that a grid that can
+  be written can be read back *iff* its system is registered (a user subclass that never called
+  `Grid._add_coordinate_system` is written but not readable; explicit assumption of the harness);
 * `Coords.WellFormed` — `delta` and `zero` of regular coordinates are what `ndarray.tolist()`
   yields: all Python ints or all Python floats.
 -/
@@ -103,20 +106,32 @@ theorem grid_dict_roundtrip (g : Grid) (h : g.Ok) : Grid.fromDict g.toDict = .ok
   obtain ⟨hs, hc⟩ := h
   obtain ⟨s, c, w⟩ := g
   simp only at hs hc
-  simp [Grid.toDict, Grid.fromDict, Tree.get, lookup, bind, Except.bind,
+  simp [Grid.toDict, Grid.fromDict, Grid.fromDictWith, Tree.get, lookup, bind, Except.bind,
     coords_dict_roundtrip c hc, hs]
 
 example : (⟨.polar, .separated [⟨"f8", [2], [0, 1]⟩, ⟨"f8", [3], [0, 1, 3]⟩], .null⟩ : Grid).Ok := by
   simp [Grid.Ok, knownSystem, Coords.WellFormed]
 
-/-- The abstract base `Grid` (coordinate system `'none'`) has a dictionary form that `from_dict`
-rejects with `KeyError`: it is written by asdf/fits but cannot be read. -/
-theorem base_grid_not_readable (g : Grid) (hs : knownSystem g.system = false)
+example : (⟨.noneSys, .regular [.float 1] [3] [.float 0], .null⟩ : Grid).Ok := by
+  simp [Grid.Ok, knownSystem, Coords.WellFormed, Homogeneous, PyNum.isInt]
+
+/-- A grid whose coordinate system is not registered in `Grid._coordinate_systems` has a dictionary
+form that `from_dict` rejects with `KeyError`. -/
+theorem unregistered_grid_not_readable (g : Grid) (hs : knownSystem g.system = false)
     (hc : g.coords.WellFormed) : Grid.fromDict g.toDict = .error .key := by
   obtain ⟨s, c, w⟩ := g
   simp only at hs hc
-  simp [Grid.toDict, Grid.fromDict, Tree.get, lookup, bind, Except.bind,
+  simp [Grid.toDict, Grid.fromDict, Grid.fromDictWith, Tree.get, lookup, bind, Except.bind,
     coords_dict_roundtrip c hc, hs]
+
+example : knownSystem (⟨.other, .regular [.float 1] [3] [.float 0], .null⟩ : Grid).system = false := rfl
+
+/-- The dictionary form of a grid is readable exactly when its coordinate system is registered. -/
+theorem grid_dict_readable_iff (g : Grid) (hc : g.coords.WellFormed) :
+    (Grid.fromDict g.toDict).toBool = true ↔ knownSystem g.system = true := by
+  cases hs : knownSystem g.system
+  · simp [unregistered_grid_not_readable g hs hc, Except.toBool]
+  · simp [grid_dict_roundtrip g ⟨hs, hc⟩, Except.toBool]
 
 theorem field_dict_roundtrip (f : Field) (h : f.grid.Ok) : Field.fromDict f.toDict = .ok f := by
   obtain ⟨v, g⟩ := f
@@ -189,10 +204,98 @@ theorem modebasis_without_grid_has_no_dict (b : ModeBasis) (h : b.grid = none) :
     b.toDict = .error .attr := by
   simp [ModeBasis.toDict, h]
 
-/-- `to_dict` leaves the object as it was (it reads `_weights`, never the materialising
-`weights` property). -/
-theorem to_dict_pure (g : Grid) (f : Field) (b : ModeBasis) :
-    g.toDictSt.1 = g ∧ f.toDictSt.1 = f ∧ b.toDictSt.1 = b := ⟨rfl, rfl, rfl⟩
+/-! ## writing never alters the object
+
+The object is the state of a `StateM` program (`Model/Serial.lean`, "object state"): `_weights` is
+lazily materialised by the *property* `grid.weights`, so a `to_dict` that read the property instead
+of the attribute would change the object being written (`to_dict_bad_alters`).  The driver op
+`todict-st` runs these very programs; the harness compares `_weights is None` before / after each
+real `to_dict` and each real write with them. -/
+
+/-- Frame lemma for grids: a `to_dict` preserves the grid as soon as its way of obtaining the
+weights does. -/
+theorem grid_to_dict_frame (getW : StateM Grid Tree) (h : ∀ g, (getW.run g).2 = g) (g : Grid) :
+    ((Grid.toDictMWith getW).run g).2 = g := h g
+
+/-- Frame lemma: whatever `to_dict` the grid has, if it preserves grids then `Field.to_dict` and
+`ModeBasis.to_dict` preserve the field / the basis. -/
+theorem field_to_dict_frame (gd : StateM Grid Tree) (hgd : ∀ g, (gd.run g).2 = g) (f : Field) :
+    ((Field.toDictMWith gd).run f).2 = f := by
+  obtain ⟨v, g⟩ := f
+  have := hgd g
+  simp only [StateT.run] at this
+  show (⟨v, (gd g).2⟩ : Field) = ⟨v, g⟩
+  rw [this]
+
+theorem basis_to_dict_frame (gd : StateM Grid Tree) (hgd : ∀ g, (gd.run g).2 = g) (b : ModeBasis) :
+    ((ModeBasis.toDictMWith gd).run b).2 = b := by
+  obtain ⟨tm, og⟩ := b
+  cases og with
+  | none => rfl
+  | some g =>
+    have := hgd g
+    simp only [StateT.run] at this
+    show (⟨tm, some (gd g).2⟩ : ModeBasis) = ⟨tm, some g⟩
+    rw [this]
+
+/-- **Writing never alters the object** (dictionary form): grid, field and mode basis are, after
+`to_dict`, what they were before, and the tree is the one the pure `toDict` describes. -/
+theorem to_dict_preserves (g : Grid) (f : Field) (b : ModeBasis) :
+    Grid.toDictM.run g = (g.toDict, g) ∧ Field.toDictM.run f = (f.toDict, f) ∧
+    ModeBasis.toDictM.run b = (b.toDict, b) := by
+  refine ⟨rfl, rfl, ?_⟩
+  obtain ⟨tm, og⟩ := b
+  cases og <;> rfl
+
+/-- **Writing never alters the object** (files): `write_grid` (asdf / fits), `write_field(fits)` and
+`write_mode_basis(fits)` leave the object as it was and write what the pure writers describe,
+whether or not the write is refused. -/
+theorem write_preserves (lib : AsdfLib) (g : Grid) (f : Field) (b : ModeBasis) :
+    (writeGridM Grid.toDictM lib).run g = (writeGridFits lib g, g) ∧
+    (writeFieldFitsM Grid.toDictM).run f = (writeFieldFits f, f) ∧
+    (writeBasisFitsM Grid.toDictM).run b = (writeBasisFits b, b) := by
+  refine ⟨rfl, rfl, ?_⟩
+  obtain ⟨tm, og⟩ := b
+  cases og <;> rfl
+
+/-- The property `grid.weights` stores what it computes: afterwards `_weights` is not `None`. -/
+theorem weights_property_materialises (auto : AutoWeights) (g : Grid) :
+    (((Grid.weightsProperty auto).run g).2).weights.isNull = false := by
+  rw [weightsProperty_run]
+  by_cases hw : g.weights.isNull = true
+  · rw [if_pos hw]
+    by_cases ha : (auto g.coords).isNull = true
+    · simp only [if_pos ha]; rfl
+    · simp only [if_neg ha]; simpa using ha
+  · rw [if_neg hw]; simpa using hw
+
+/-- The model can express a violation: a `to_dict` that reads the property `weights` alters
+**every** grid whose weights were not yet materialised (and no other), whatever the automatic
+weights of its class are; the alteration propagates to a field on that grid. -/
+theorem to_dict_bad_alters (auto : AutoWeights) (g : Grid) :
+    (((Grid.toDictMBad auto).run g).2 ≠ g ↔ g.weights.isNull = true) ∧
+    (g.weights.isNull = true → ∀ v, ((Field.toDictMWith (Grid.toDictMBad auto)).run ⟨v, g⟩).2 ≠ ⟨v, g⟩) := by
+  have hstate : ((Grid.toDictMBad auto).run g).2 = ((Grid.weightsProperty auto).run g).2 := rfl
+  have hmat := weights_property_materialises auto g
+  constructor
+  · constructor
+    · intro hne
+      by_contra hw
+      apply hne
+      rw [hstate, weightsProperty_run, if_neg hw]
+    · intro hw heq
+      rw [hstate] at heq
+      rw [heq, hw] at hmat
+      cases hmat
+  · intro hw v heq
+    have h2 : (((Field.toDictMWith (Grid.toDictMBad auto)).run ⟨v, g⟩).2).grid
+        = ((Grid.toDictMBad auto).run g).2 := rfl
+    rw [heq] at h2
+    simp only at h2
+    rw [hstate] at h2
+    rw [← h2, hw] at hmat
+    cases hmat
+example : (⟨.cartesian, .regular [.float 1] [3] [.float 0], .null⟩ : Grid).weights.isNull = true := rfl
 
 /-! ## the FITS paths -/
 
@@ -201,10 +304,11 @@ whenever `write_field` can write the file, `read_field` returns the field that w
 (values, tensor shape, grid).  Separated grids travel as an image of shape `ts ++ grid.shape`,
 the others inside the embedded tree. -/
 theorem fits_field_roundtrip (f : Field) (ts : List Nat) (h : f.grid.Ok)
+    (hnd : 0 < f.grid.coords.ndim)
     (hshape : f.values.shape = ts ++ [f.grid.coords.size]) (file : FitsFile)
     (hw : writeFieldFits f = .ok file) : readFieldFits file = .ok f := by
   obtain ⟨⟨dt, shape, data⟩, g⟩ := f
-  simp only at hshape h
+  simp only at hshape h hnd
   subst hshape
   unfold writeFieldFits at hw
   by_cases hsep : g.coords.isSeparated = true
@@ -216,8 +320,7 @@ theorem fits_field_roundtrip (f : Field) (ts : List Nat) (h : f.grid.Ok)
     split at hw
     · injection hw with hw
       subst hw
-      have ht := take_length_sub ts g.coords.shape g.coords.ndim hlen
-      simp only [List.length_append] at ht
+      have ht := pyDropLast_append ts g.coords.shape g.coords.ndim hlen hnd
       simp [readFieldFits, Field.toDict, Tree.erase, eraseKey, Tree.set, setKey, Tree.get, lookup,
         grid_dict_roundtrip g h, bind, Except.bind, Arr.reshape, ht, hprod, Field.fromDict, asArr]
     · cases hw
@@ -230,12 +333,46 @@ example : (⟨⟨"f8", [2, 4], [1, 2, 3, 4, 5, 6, 7, 8]⟩,
     ⟨.cartesian, .unstructured [⟨"f8", [4], [0, 1, 3, 4]⟩, ⟨"f8", [4], [0, 2, 5, 7]⟩], .null⟩⟩ : Field).values.shape
     = [2] ++ [(Coords.unstructured [⟨"f8", [4], [0, 1, 3, 4]⟩, ⟨"f8", [4], [0, 2, 5, 7]⟩]).size] := by decide
 
+/-! Witnesses of the **image branch** (separated grids; the example above is the tree branch): a
+vector field on a regular 3 × 2 grid and a (2, 1) tensor field on a separated polar grid satisfy
+the hypotheses, are written as images of shape `tensor shape ++ grid.shape`, and come back equal. -/
+
+def exGridReg2 : Grid := ⟨.cartesian, .regular [.float 1, .float 1] [3, 2] [.float 0, .float 0], .null⟩
+def exGridSep : Grid := ⟨.polar, .separated [⟨"f8", [3], [0, 1, 3]⟩, ⟨"f8", [2], [0, 2]⟩], .arr ⟨"f8", [6], [1, 2, 3, 4, 5, 6]⟩⟩
+def exFieldImage : Field := ⟨⟨"f8", [2, 6], [1, 2, 3, 4, 5, 6, 7, 8, 9, 10, 11, 12]⟩, exGridReg2⟩
+def exTensorImage : Field := ⟨⟨"i4", [2, 1, 6], [1, 2, 3, 4, 5, 6, 7, 8, 9, 10, 11, 12]⟩, exGridSep⟩
+
+example : exFieldImage.grid.Ok ∧ 0 < exFieldImage.grid.coords.ndim ∧
+    exFieldImage.values.shape = [2] ++ [exFieldImage.grid.coords.size] := by
+  refine ⟨⟨rfl, ?_⟩, by decide, by decide⟩
+  simp [exFieldImage, exGridReg2, Coords.WellFormed, Homogeneous, PyNum.isInt]
+
+example : exTensorImage.grid.Ok ∧ 0 < exTensorImage.grid.coords.ndim ∧
+    exTensorImage.values.shape = [2, 1] ++ [exTensorImage.grid.coords.size] := by
+  refine ⟨⟨rfl, ?_⟩, by decide, by decide⟩
+  simp [exTensorImage, exGridSep, Coords.WellFormed]
+
+example : (writeFieldFits exFieldImage).map (fun file => file.image.map (·.shape)) = .ok (some [2, 2, 3]) ∧
+    ((writeFieldFits exFieldImage).bind readFieldFits).map (·.values) = .ok exFieldImage.values := by
+  constructor <;> decide +kernel
+
+example : (writeFieldFits exTensorImage).map (fun file => file.image.map (·.shape)) = .ok (some [2, 1, 2, 3]) ∧
+    ((writeFieldFits exTensorImage).bind readFieldFits).map (·.values) = .ok exTensorImage.values := by
+  constructor <;> decide +kernel
+
+/-- `shape[:-grid.ndim]` is modelled literally (`pyDropLast`): for a zero-dimensional separated grid
+it is `shape[:0] = ()`, and a scalar field on such a grid (the one case the real code writes) comes
+back as written.  For `ndim = 0` and a non-empty tensor shape the real writer raises, the model's
+does not: that is what `hnd` excludes. -/
+example : ((writeFieldFits ⟨⟨"f8", [1], [5]⟩, ⟨.cartesian, .separated [], .null⟩⟩).bind readFieldFits).map
+    (·.values) = .ok ⟨"f8", [1], [5]⟩ := by decide +kernel
+
 /-- **Dense mode bases through FITS** (after the repair of D160).  For every tensor shape `ts`,
 number of modes `m` and grid: whenever `write_mode_basis` can write the file, `read_mode_basis`
 returns the basis that was written.  On separated grids the matrix travels as an image with axes
 (mode, tensor…, grid…). -/
 theorem fits_basis_dense_roundtrip (b : ModeBasis) (a : Arr) (g : Grid) (ts : List Nat) (m : Nat)
-    (htm : b.tm = .dense a) (hg : b.grid = some g) (h : g.Ok)
+    (htm : b.tm = .dense a) (hg : b.grid = some g) (h : g.Ok) (hnd : 0 < g.coords.ndim)
     (hshape : a.shape = ts ++ [g.coords.size, m]) (hdata : a.data.length = prod a.shape)
     (file : FitsFile) (hw : writeBasisFits b = .ok file) : readBasisFits file = .ok b := by
   obtain ⟨tm, og⟩ := b
@@ -263,8 +400,8 @@ theorem fits_basis_dense_roundtrip (b : ModeBasis) (a : Arr) (g : Grid) (ts : Li
     · split at hw
       · injection hw with hw
         subst hw
-        have ht := take_length_sub (m :: ts) g.coords.shape g.coords.ndim hlen
-        simp only [List.length_append, List.cons_append, List.length_cons] at ht
+        have ht := pyDropLast_append (m :: ts) g.coords.shape g.coords.ndim hlen hnd
+        simp only [List.cons_append] at ht
         have hlenD' : data.length = prod ts * prod g.coords.shape * m := by
           rw [hlenD, prod_append, prod_singleton, hsize]
         simp [readBasisFits, Tree.erase, eraseKey, Tree.set, setKey, Tree.get, lookup,
@@ -278,10 +415,19 @@ theorem fits_basis_dense_roundtrip (b : ModeBasis) (a : Arr) (g : Grid) (ts : Li
     have := modebasis_dict_roundtrip ⟨.dense ⟨dt, ts ++ [g.coords.size, m], data⟩, some g⟩ g rfl h
     simpa [readBasisFits, ModeBasis.toDict, ModeBasis.isSparse, Except.bind] using this
 
+/-- witness of the image branch for a dense tensor basis: hypotheses hold, the image has axes
+(mode, tensor, grid) -/
+example : (⟨.cartesian, .regular [.float 1] [2] [.float 0], .null⟩ : Grid).Ok ∧
+    (writeBasisFits ⟨.dense ⟨"f8", [2, 2, 3], [1, 2, 3, 4, 5, 6, 7, 8, 9, 10, 11, 12]⟩,
+      some ⟨.cartesian, .regular [.float 1] [2] [.float 0], .null⟩⟩).map
+      (fun file => file.image.map (·.shape)) = .ok (some [3, 2, 2]) := by
+  refine ⟨⟨rfl, ?_⟩, by decide +kernel⟩
+  simp [Coords.WellFormed, Homogeneous, PyNum.isInt]
+
 /-- Reading a sparse basis back from FITS gives either the very same CSC matrix (tree path) or
 the re-sparsified dense image `csc_matrix(c.todense())` (image path, after the repair of D14). -/
 theorem fits_basis_sparse_read (b : ModeBasis) (c : Csc) (g : Grid) (m : Nat)
-    (htm : b.tm = .sparse c) (hg : b.grid = some g) (h : g.Ok)
+    (htm : b.tm = .sparse c) (hg : b.grid = some g) (h : g.Ok) (hnd : 0 < g.coords.ndim)
     (hshape : c.shape = [g.coords.size, m])
     (file : FitsFile) (hw : writeBasisFits b = .ok file) :
     readBasisFits file = .ok b ∨
@@ -316,9 +462,8 @@ theorem fits_basis_sparse_read (b : ModeBasis) (c : Csc) (g : Grid) (m : Nat)
     · split at hw
       · injection hw with hw
         subst hw
-        have ht := take_length_sub [m] g.coords.shape g.coords.ndim hlen
-        simp only [List.length_append, List.cons_append, List.nil_append, List.length_cons,
-          List.length_nil] at ht
+        have ht := pyDropLast_append [m] g.coords.shape g.coords.ndim hlen hnd
+        simp only [List.cons_append, List.nil_append] at ht
         have hlenD' : data.length = prod g.coords.shape * m := by rw [hAd, hsize]
         simp [readBasisFits, Tree.erase, eraseKey, Tree.set, setKey, Tree.get, lookup,
           grid_dict_roundtrip g h, bind, Except.bind, Arr.reshape, ht, hprod, prod, prod_append,
@@ -345,12 +490,12 @@ it can be read, and the basis read is sparse, on the same grid, with the same ma
 (`todense()` equal; on the image path explicit zeros, duplicates and index order of the CSC
 structure are normalised by SciPy, which the property allows). -/
 theorem fits_basis_sparse_roundtrip (b : ModeBasis) (c : Csc) (g : Grid) (m : Nat)
-    (htm : b.tm = .sparse c) (hg : b.grid = some g) (h : g.Ok)
+    (htm : b.tm = .sparse c) (hg : b.grid = some g) (h : g.Ok) (hnd : 0 < g.coords.ndim)
     (hshape : c.shape = [g.coords.size, m])
     (file : FitsFile) (hw : writeBasisFits b = .ok file) :
     ∃ b', readBasisFits file = .ok b' ∧ b'.isSparse = true ∧ b'.grid = b.grid ∧
       b'.denseArr = b.denseArr := by
-  rcases fits_basis_sparse_read b c g m htm hg h hshape file hw with hr | hr
+  rcases fits_basis_sparse_read b c g m htm hg h hnd hshape file hw with hr | hr
   · exact ⟨b, hr, by simp [ModeBasis.isSparse, htm], rfl, rfl⟩
   · refine ⟨_, hr, rfl, hg.symm, ?_⟩
     obtain ⟨hs, hl⟩ := cscToDense_shape c _ _ hshape
@@ -359,7 +504,119 @@ theorem fits_basis_sparse_roundtrip (b : ModeBasis) (c : Csc) (g : Grid) (m : Na
     simp only [ModeBasis.denseArr, htm]
     rw [heta, cscToDense_denseToCsc _ _ _ _ hl]
 
-/-! ### the unrepaired read/write paths and their counterexamples -/
+/-! ## grid files and the ASDF layer
+
+`lib : AsdfLib` is the ASDF library, `AsdfFaithful lib` the named assumption about it (trees come
+back as stored, NumPy-scalar weights as Python numbers: `Grid.pyWeights`).  The harness monitors the
+assumption on every asdf file and every grid FITS file it writes (driver op `file`). -/
+
+/-- the library behaviour observed on real files satisfies the hypothesis -/
+theorem asdfFaithful_observed : AsdfFaithful AsdfLib.observed := by
+  refine ⟨?_, ?_, ?_⟩
+  · intro g
+    obtain ⟨s, c, w⟩ := g
+    simp [AsdfLib.observed, asdfLoad, Grid.toDict, Tree.get, lookup]
+  · intro f
+    obtain ⟨v, g⟩ := f
+    simp [AsdfLib.observed, asdfLoad, Field.toDict, Tree.get, lookup]
+  · intro b t ht
+    obtain ⟨tm, og⟩ := b
+    cases og with
+    | none => simp [ModeBasis.toDict] at ht
+    | some g =>
+      simp only [ModeBasis.toDict] at ht
+      injection ht with ht
+      subst ht
+      simp [AsdfLib.observed, asdfLoad, Tree.get, lookup]
+
+/-- **Grids through asdf files**: reading back what was written yields the grid (system,
+coordinates, weights; NumPy-scalar weights as the Python number of the same value). -/
+theorem asdf_grid_roundtrip (lib : AsdfLib) (hl : AsdfFaithful lib) (g : Grid) (h : g.Ok) :
+    (writeGridAsdf lib g).bind readGridAsdf = .ok g.pyWeights := by
+  simp [writeGridAsdf, readGridAsdf, Except.bind, hl.grid, normGridTree_toDict,
+    grid_dict_roundtrip _ (show g.pyWeights.Ok from h)]
+
+/-- **Grids through FITS files** (no image; the tree travels in the embedded ASDF table). -/
+theorem fits_grid_roundtrip (lib : AsdfLib) (hl : AsdfFaithful lib) (g : Grid) (h : g.Ok) :
+    (writeGridFits lib g).bind readGridFits = .ok g.pyWeights := by
+  simp [writeGridFits, readGridFits, Except.bind, hl.grid, normGridTree_toDict,
+    grid_dict_roundtrip _ (show g.pyWeights.Ok from h)]
+
+example : (⟨.polar, .separated [⟨"f8", [2], [0, 1]⟩, ⟨"f8", [3], [0, 1, 3]⟩], .arr ⟨"f8", [], [2]⟩⟩ : Grid).Ok := by
+  simp [Grid.Ok, knownSystem, Coords.WellFormed]
+
+/-- a grid whose weights are not a NumPy scalar is untouched by the ASDF layer, so the two
+theorems above return the very grid that was written -/
+theorem pyWeights_eq_self (g : Grid) (h : g.weights.isNpScalar = false) : g.pyWeights = g := by
+  obtain ⟨s, c, w⟩ := g
+  simp only [Grid.pyWeights]
+  congr
+  unfold pyScalar
+  split
+  · simp [Tree.isNpScalar] at h
+  · rfl
+
+example : (Tree.null).isNpScalar = false ∧ (Tree.arr ⟨"f8", [3], [1, 2, 3]⟩).isNpScalar = false ∧
+    (Tree.num (.float 2)).isNpScalar = false := ⟨rfl, rfl, rfl⟩
+
+/-- **The property-shaped statement for grids, with its exception visible**: a grid file (asdf or
+FITS) can always be written, and the file that was written can be read back *iff* the grid's
+coordinate system is registered in `Grid._coordinate_systems`.  After the repair of D161 that is
+`CartesianGrid`, `PolarGrid` and the base `Grid`; the remaining exception is a user subclass that
+never registered itself (harness kind `unregistered`, stated in `ctx.assumptions`). -/
+theorem grid_file_readable_iff (lib : AsdfLib) (hl : AsdfFaithful lib) (g : Grid)
+    (hc : g.coords.WellFormed) :
+    (∀ file, writeGridAsdf lib g = .ok file →
+      ((readGridAsdf file).toBool = true ↔ knownSystem g.system = true)) ∧
+    (∀ file, writeGridFits lib g = .ok file →
+      ((readGridFits file).toBool = true ↔ knownSystem g.system = true)) := by
+  have key : (Grid.fromDict (lib.load g.toDict)).toBool = true ↔ knownSystem g.system = true := by
+    rw [hl.grid, normGridTree_toDict]
+    exact grid_dict_readable_iff g.pyWeights hc
+  constructor
+  · intro file hw
+    simp only [writeGridAsdf] at hw
+    injection hw with hw
+    subst hw
+    exact key
+  · intro file hw
+    simp only [writeGridFits] at hw
+    injection hw with hw
+    subst hw
+    exact key
+
+example : knownSystem Tag.other = false ∧ knownSystem Tag.noneSys = true := ⟨rfl, rfl⟩
+
+/-- **Fields through asdf files.** -/
+theorem asdf_field_roundtrip (lib : AsdfLib) (hl : AsdfFaithful lib) (f : Field) (h : f.grid.Ok) :
+    (writeFieldAsdf lib f).bind readFieldAsdf = .ok { f with grid := f.grid.pyWeights } := by
+  simp only [writeFieldAsdf, readFieldAsdf, Except.bind, hl.field, normObjTree_field]
+  exact field_dict_roundtrip _ (show f.grid.pyWeights.Ok from h)
+
+/-- **Mode bases through asdf files** (dense stays dense, CSC stays CSC with the same arrays). -/
+theorem asdf_basis_roundtrip (lib : AsdfLib) (hl : AsdfFaithful lib) (b : ModeBasis) (g : Grid)
+    (hg : b.grid = some g) (h : g.Ok) :
+    (writeBasisAsdf lib b).bind readBasisAsdf = .ok { b with grid := some g.pyWeights } := by
+  have hd : ∃ t, b.toDict = .ok t := by
+    obtain ⟨tm, og⟩ := b
+    simp only at hg
+    subst hg
+    exact ⟨_, rfl⟩
+  obtain ⟨t, ht⟩ := hd
+  have hn := normObjTree_basis b g hg t ht
+  have hr := modebasis_dict_roundtrip ({ b with grid := some g.pyWeights } : ModeBasis) g.pyWeights rfl
+    (show g.pyWeights.Ok from h)
+  rw [← hn] at hr
+  simp only [writeBasisAsdf, readBasisAsdf, ht, bind, Except.bind, hl.basis b t ht] at hr ⊢
+  exact hr
+
+example : AsdfFaithful AsdfLib.observed := asdfFaithful_observed
+
+/-! ## Old — the unrepaired read/write paths and their counterexamples
+
+Documentation of the defects that were found (D14, D19, D160, D161): statements about `…Old`
+definitions, i.e. about code that `/repo` no longer contains once the `fix:` commits are applied.
+Not evidence for the property. -/
 
 def exGridU : Grid :=
   ⟨.cartesian, .unstructured [⟨"f8", [4], [0, 1, 3, 4]⟩, ⟨"f8", [4], [0, 2, 5, 7]⟩], .null⟩
@@ -389,12 +646,23 @@ theorem fits_basis_old_counterexample_sparse :
     (writeBasisFitsOld exSparseBasis).bind readBasisFitsOld = .error .value := by
   rfl
 
+/-- D161: on the unrepaired tree the base class `Grid` (coordinate system `'none'`) is written to asdf
+and FITS files that cannot be read back (`KeyError: 'none'`). -/
+theorem base_grid_old_counterexample :
+    (writeGridAsdf AsdfLib.observed ⟨.noneSys, .regular [.float 1] [3] [.float 0], .null⟩).bind readGridAsdfOld
+      = .error .key ∧
+    (writeGridFits AsdfLib.observed ⟨.noneSys, .regular [.float 1] [3] [.float 0], .null⟩).bind readGridFitsOld
+      = .error .key := by
+  constructor <;> rfl
+
 /-- the repaired paths on the same inputs -/
 theorem fits_repaired_on_counterexamples :
     ((writeFieldFits exVector).bind readFieldFits).map (·.values) = .ok exVector.values ∧
     ((writeFieldFits exTensor).bind readFieldFits).map (·.values) = .ok exTensor.values ∧
     ((writeBasisFits exTensorBasis).bind readBasisFits).map (·.tm) = .ok exTensorBasis.tm ∧
-    ((writeBasisFits exSparseBasis).bind readBasisFits).map (·.tm) = .ok exSparseBasis.tm := by
-  refine ⟨rfl, rfl, ?_, ?_⟩ <;> decide +kernel
+    ((writeBasisFits exSparseBasis).bind readBasisFits).map (·.tm) = .ok exSparseBasis.tm ∧
+    (writeGridFits AsdfLib.observed ⟨.noneSys, .regular [.float 1] [3] [.float 0], .null⟩).bind readGridFits
+      = .ok ⟨.noneSys, .regular [.float 1] [3] [.float 0], .null⟩ := by
+  refine ⟨rfl, rfl, ?_, ?_, rfl⟩ <;> decide +kernel
 
 end HcipyVerif.Serial
